@@ -1,3 +1,4 @@
+\* used by checks/c49.py: needs obs_locks.ndjson (hold intervals recorded by drv/certstore) next to the spec
 SPECIFICATION Spec
 CONSTANTS
   Family = "lock_obs"
